@@ -18,7 +18,7 @@ KINDS = ['gen_sum_n_bits', 'gen_weighted_eff', 'gen_weighted_naive', 'add_sum_n_
 @st.composite
 def cases(draw, tier):
     big = tier == 'thorough'
-    kind = draw(st.sampled_from(KINDS))
+    kind = draw(st.sampled_from(KINDS + ['add_two_numbers', 'add_two_numbers_shift', 'add_two_numbers_shift']))
     nmax = 24 if big else 14
     case = {'kind': kind, 'basis': draw(arith.basis_spellings()), 'big_endian': draw(st.booleans()),
             'uuid_seed': draw(st.integers(0, 2 ** 20)), 'row_seed': draw(st.integers(0, 2 ** 20))}
@@ -34,7 +34,7 @@ def cases(draw, tier):
     repeat = draw(st.integers(0, 5)) == 0
     # what the caller hands over: private copies, the host's own live inputs / outputs list, or (two-number adders)
     # one and the same list object for both numbers
-    case['alias'] = draw(st.sampled_from([None, None, None, 'inputs', 'outputs', 'same_object']))
+    case['alias'] = draw(st.sampled_from([None, None, None, 'inputs', 'outputs', 'same_object', 'same_object']))
     case['hand'] = draw(st.sampled_from(arith.HAND_STYLES))
     if kind in ('add_two_numbers', 'add_two_numbers_shift'):
         # mostly short numbers, sometimes one or both long: lopsided lengths are where shifted adders go wrong
@@ -254,7 +254,7 @@ SPEC = {
              'host discipline (old gates structurally and functionally unchanged, interface unchanged), no XOR/NXOR among '
              'fresh gates under AIG, documented gate-count bounds. Non-trivial: n>=3 with a carry across levels.'),
     'assumptions': ['reference tables from vlib/refsem.py; uuid4 replaced by a seeded stream'],
-    'subs': [Sub('sum', cases, check_sum, {'quick': 1600, 'thorough': 125000})],
+    'subs': [Sub('sum', cases, arith.with_label_collisions(check_sum), {'quick': 1600, 'thorough': 125000})],
     'required_classes': {'sum': KINDS + ['basis:AIG/str', 'basis:AIG/enum', 'basis:XAIG/str', 'internal_operands',
                                          'repeated_operands', 'shift_vs_len:gt', 'shift_vs_len:eq', 'be', 'le',
                                          'alias:live_list', 'alias:same_object']},
